@@ -120,7 +120,12 @@ func (e *Engine) execInstr(s *State, in ssa.Instruction) []*State {
 	case *ssa.MapUpdate:
 		m := e.val(s, x.Map)
 		mt := x.Map.Type().Underlying().(*types.Map)
-		e.assert(s, e.oblName(s, in, "nilmap-write"), "nilmap-write", in.Pos(), "assignment to entry in nil map", not(eq(m.L[0], "0")))
+		nmw := not(eq(m.L[0], "0"))
+		if m.NN {
+			nmw = "true" // map held in a struct field / parameter: trusted non-nil (listed assumption)
+		}
+		e.assert(s, e.oblName(s, in, "nilmap-write"), "nilmap-write", in.Pos(), "assignment to entry in nil map", nmw)
+		e.containerWrite(s, m, e.val(s, x.Value), in)
 		e.mapStore(s, mt, m.L[0], e.val(s, x.Key), e.val(s, x.Value))
 	case *ssa.Range:
 		e.execRange(s, x)
@@ -360,10 +365,7 @@ func (e *Engine) execIndexAddr(s *State, x *ssa.IndexAddr) *Val {
 		at := u.Elem().Underlying().(*types.Array)
 		e.nilCheck(s, base, x.X.Type(), x)
 		e.assert(s, e.oblName(s, x, "index"), "index", x.Pos(), "index out of range", and(app("<=", "0", idx), app("<", idx, num(at.Len()))))
-		if base.A != nil {
-			e.unsupportedf("array inside struct/field at %s", e.P.Pos(x.Pos()))
-		}
-		return &Val{A: &Addr{K: AElem, Base: base.L[0], Idx: idx, T: at.Elem()}, NN: true}
+		return &Val{A: &Addr{K: AElem, Base: e.arrayRef(s, base), Idx: idx, T: at.Elem()}, NN: true}
 	}
 	e.unsupportedf("IndexAddr on %s", x.X.Type())
 	return nil
@@ -448,13 +450,27 @@ func (e *Engine) execSlice(s *State, x *ssa.Slice) *Val {
 		}
 		e.nilCheck(s, base, x.X.Type(), x)
 		e.assert(s, name, "slice", x.Pos(), "slice bounds out of range", and(app("<=", "0", lo), app("<=", lo, hi), app("<=", hi, mx), app("<=", mx, n)))
-		if base.A != nil {
-			e.unsupportedf("slice of array field at %s", e.P.Pos(x.Pos()))
-		}
-		return &Val{L: []string{base.L[0], lo, e.define(s, "sl", "Int", app("-", hi, lo)), e.define(s, "sc", "Int", app("-", mx, lo))}, NN: true}
+		return &Val{L: []string{e.arrayRef(s, base), lo, e.define(s, "sl", "Int", app("-", hi, lo)), e.define(s, "sc", "Int", app("-", mx, lo))}, NN: true}
 	}
 	e.unsupportedf("Slice on %s", x.X.Type())
 	return nil
+}
+
+// arrayRef is the backing-array reference of a pointer-to-array value. An array that is a struct
+// field is identified by an uninterpreted function of the owning object (it may alias anything:
+// conservative).
+func (e *Engine) arrayRef(s *State, base *Val) string {
+	if base.A == nil {
+		return base.L[0]
+	}
+	if base.A.K != AField {
+		e.unsupportedf("array behind %v pointer", base.A.K)
+	}
+	f := "farr!" + sanitize(base.A.SKey+base.A.Path)
+	e.globalDecl("(declare-fun " + f + " (Int) Int)")
+	r := e.define(s, "farr", "Int", app(f, base.A.Base))
+	s.assume(app(">", r, "0"))
+	return r
 }
 
 func (e *Engine) makeInterface(s *State, t types.Type, v *Val) *Val {
@@ -668,6 +684,9 @@ func (e *Engine) execLookup(s *State, x *ssa.Lookup) *Val {
 	k := e.val(s, x.Index)
 	if mt, ok := x.X.Type().Underlying().(*types.Map); ok {
 		v, in := e.mapLoad(s, mt, m.L[0], k)
+		if strings.Contains(e.C.Containers[m.Src], "nonnil") && len(v.L) == 1 {
+			s.assume(implies(in, not(eq(v.L[0], "0"))))
+		}
 		if x.CommaOk {
 			return &Val{Tup: []*Val{v, {L: []string{in}}}, L: append(append([]string{}, v.L...), in)}
 		}
@@ -736,6 +755,7 @@ func (e *Engine) event(s *State, ev Event) {
 func (e *Engine) execSend(s *State, x *ssa.Send) {
 	ch := e.val(s, x.Chan)
 	c := ch.L[0]
+	e.containerWrite(s, ch, e.val(s, x.X), x)
 	cl := e.heapGet(s, "CL!", "(Array Int Int)")
 	cc := e.heapGet(s, "CC!", "(Array Int Int)")
 	room := app("<", app("select", cl, c), app("select", cc, c))
@@ -750,8 +770,21 @@ func (e *Engine) execSend(s *State, x *ssa.Send) {
 	e.escape(s, x.X.Type(), e.val(s, x.X))
 }
 
+// containerWrite checks the element invariant of a container field at a write.
+func (e *Engine) containerWrite(s *State, cont, v *Val, in ssa.Instruction) {
+	if !strings.Contains(e.C.Containers[cont.Src], "nonnil") || len(v.L) != 1 {
+		return
+	}
+	goal := not(eq(v.L[0], "0"))
+	if v.NN {
+		goal = "true"
+	}
+	e.assert(s, e.oblName(s, in, "container-inv"), "container-inv", in.Pos(), "element written to "+cont.Src+" is non-nil", goal)
+}
+
 func (e *Engine) execRecv(s *State, x *ssa.UnOp) []*State {
-	e.event(s, Event{Kind: "recv", What: x.X.Name(), Pos: e.P.Pos(x.Pos()), Instr: x, Blocking: true})
+	rev := Event{Kind: "recv", What: x.X.Name(), Pos: e.P.Pos(x.Pos()), Instr: x, Blocking: true, Extra: map[string]string{}}
+	defer func() { e.event(s, rev) }()
 	var et types.Type
 	if x.CommaOk {
 		et = x.Type().(*types.Tuple).At(0).Type()
@@ -760,8 +793,22 @@ func (e *Engine) execRecv(s *State, x *ssa.UnOp) []*State {
 	}
 	v := e.havocVal(s, et, "rcv")
 	e.assumeAllocatedVal(s, et, v)
+	cinv := e.C.Containers[e.val(s, x.X).Src]
+	nonnil := strings.Contains(cinv, "nonnil") && len(v.L) == 1
+	if strings.Contains(cinv, "open") && nonnil && !x.CommaOk {
+		s.assume(not(eq(v.L[0], "0")))
+	}
+	if nonnil && !x.CommaOk {
+		// a receive without ok may also see the zero value of a closed channel: no assumption
+		nonnil = false
+	}
 	if x.CommaOk {
 		ok := e.declare(s, "rcvok", "Bool")
+		rev.Extra["ok"] = ok
+		if nonnil {
+			s.assume(implies(ok, not(eq(v.L[0], "0"))))
+		}
+		s.assume(implies(not(ok), eq(v.L[0], e.zero(et).L[0])))
 		s.top().Vals[x] = &Val{Tup: []*Val{v, {L: []string{ok}}}, L: append(append([]string{}, v.L...), ok)}
 	} else {
 		s.top().Vals[x] = v
@@ -780,7 +827,6 @@ func (e *Engine) execSelect(s *State, x *ssa.Select) []*State {
 		cases = append(cases, d+":"+st.Chan.Name())
 	}
 	ev.What = strings.Join(cases, ",")
-	e.event(s, ev)
 	tt := x.Type().(*types.Tuple)
 	idx := e.declare(s, "selidx", "Int")
 	lo := "0"
@@ -790,11 +836,32 @@ func (e *Engine) execSelect(s *State, x *ssa.Select) []*State {
 	s.assume(and(app("<=", lo, idx), app("<", idx, num(int64(len(x.States))))))
 	r := &Val{Tup: []*Val{{L: []string{idx}}}}
 	ok := e.declare(s, "selok", "Bool")
+	ev.Extra["idx"], ev.Extra["ok"] = idx, ok
+	e.event(s, ev)
 	r.Tup = append(r.Tup, &Val{L: []string{ok}})
+	ri := 0
 	for i := 2; i < tt.Len(); i++ {
 		v := e.havocVal(s, tt.At(i).Type(), "selrcv")
 		e.assumeAllocatedVal(s, tt.At(i).Type(), v)
 		r.Tup = append(r.Tup, v)
+		// find the ri-th receive state to apply its container invariant
+		k := 0
+		for si, st := range x.States {
+			if st.Dir == types.RecvOnly {
+				if k == ri {
+					cinv := e.C.Containers[e.val(s, st.Chan).Src]
+					if strings.Contains(cinv, "nonnil") && len(v.L) == 1 {
+						s.assume(implies(and(eq(idx, num(int64(si))), ok), not(eq(v.L[0], "0"))))
+					}
+					if strings.Contains(cinv, "open") {
+						s.assume(implies(eq(idx, num(int64(si))), ok))
+					}
+					s.assume(implies(and(eq(idx, num(int64(si))), not(ok)), eq(v.L[0], e.zero(tt.At(i).Type()).L[0])))
+				}
+				k++
+			}
+		}
+		ri++
 	}
 	for _, c := range r.Tup {
 		r.L = append(r.L, c.L...)
